@@ -608,6 +608,14 @@ def _isinstance(ex, st, args, kw, node):
         return z3.BoolVal("str" in names)
     if isinstance(v, (Tup, tuple)):
         return z3.BoolVal("tuple" in names)
+    if isinstance(v, SeqV):
+        return z3.BoolVal("list" in names)
+    if isinstance(v, DictV):
+        return z3.BoolVal("dict" in names)
+    if is_z3(lit(v)):
+        x = lit(v)
+        kind = "bool" if z3.is_bool(x) else ("int" if z3.is_int(x) else "float")       # a symbolic number is a Python int / float (numpy scalars are not modelled)
+        return z3.BoolVal(kind in names or (kind == "bool" and "int" in names))
     raise Undecided("isinstance of this value")
 
 
